@@ -61,7 +61,7 @@ for a in asf:
 P("")
 # ---- seeds
 P("### 8.6 Seeded changes and which checks catch them\n")
-P("Each change was written by a fresh sub-agent that saw only the property text and a scratch worktree; it was kept only after the patch applied, the pinned suite passed with it, and its demonstration failed with it and passed without it (`tools/verify_seed.sh`). `tools/recheck_seed.sh` re-confirms them after the base moves; `obsolete` = a later `fix:` commit made the change harmless, and the checks are expected to stay silent on it. The *caught by* column is from `tools/seedmatrix.sh` (every property's quick check on every variant).\n")
+P("Each change was written by a fresh sub-agent that saw only the property text and a scratch worktree; it was kept only after the patch applied, the pinned suite passed with it, and its demonstration failed with it and passed without it (`tools/verify_seed.sh`). `tools/recheck_seed.sh` re-confirms them after the base moves; `obsolete` = a later `fix:` commit made the change harmless, and the checks are expected to stay silent on it. The *caught by* column is from `tools/seedmatrix.sh`: every property's quick check on every variant for the changes of rounds 1–5 (cells other than a change's own property date from that full run); for the later rounds, and for every change after each rework of the interpreter, only the cell of the change's own property is re-run (`MATRIX_PROPS=own MATRIX_MERGE=1`, minutes instead of the many hours of the full 19-column pass over ~475 changes) — `not run` marks the others.\n")
 mx = collections.defaultdict(dict)
 mp = f'{root}/seeded/MATRIX.tsv'
 if os.path.exists(mp):
